@@ -185,7 +185,9 @@ def ev(e, env, be):
         if isinstance(m, RMask):
             # reference: an invalid mask's payload is never looked at
             return m.value if flag else d
-        return xp.where(flag, m.value, d)
+        import jax.tree_util as jtu
+
+        return jtu.tree_map(lambda a, b: xp.where(flag, a, b), m.value, d)
     if op == "flag":
         return be.mask_flag(ev(e[1], env, be))
     if op == "tup":
